@@ -25,20 +25,15 @@ Theorem C03_outcomes : forall H qs, match canonicalize H qs with COk _ _ | CErrP
 Proof. intros H qs. destruct (canonicalize H qs); exact I. Qed.
 
 (* ---------- invariance under blank node renaming and quad order ---------- *)
-Definition renamed (f : bytes -> bytes) (q : cquad) : cquad :=
-  CQ (match q_s q with CB l => CB (f l) | x => x end) (q_p q)
-     (match q_o q with CB l => CB (f l) | x => x end)
-     (match q_g q with Some (CB l) => Some (CB (f l)) | x => x end).
+(* [renamed f q] (CanonInvariance.v): q with every blank node label l replaced by f l, in subject, object and graph
+   position *)
 
 (* 4.6: the first-degree hash of a blank node is the same in every relabelled, reordered copy of the dataset
    (every hash function, every dataset) *)
 Theorem C03_first_degree_invariant : forall H f qs qs' n,
   (forall a b, f a = f b -> a = b) -> Permutation qs' (map (renamed f) qs) ->
   hash_first_degree H qs' (f n) = hash_first_degree H qs n.
-Proof.
-  intros H f qs qs' n Hf P. apply hash_first_degree_invariant; [exact Hf|].
-  erewrite map_ext; [exact P|]. intros q. apply ren_spelled.
-Qed.
+Proof. exact first_degree_invariant_spelled. Qed.
 Print Assumptions C03_first_degree_invariant.
 
 (* datasets in which the first-degree hashes tell all blank nodes apart (the N-degree step 5 has nothing to do):
@@ -51,10 +46,7 @@ Theorem C03_simple_invariant_partial : forall H f qs qs',
   exists lines c lines' c',
     canonicalize H qs = COk lines c /\ canonicalize H qs' = COk lines' c' /\
     map snd lines = map snd lines' /\ (forall l, lookup c' (f l) = lookup c l).
-Proof.
-  intros H f qs qs' Hf Hs P. apply (canon_simple_invariant H f Hf qs qs' Hs).
-  erewrite map_ext; [exact P|]. intros q. apply ren_spelled.
-Qed.
+Proof. exact simple_invariant_spelled. Qed.
 Print Assumptions C03_simple_invariant_partial.
 
 (* NOT PROVED (stated only): the same for datasets which need the N-degree step. As written, for every function H,
